@@ -71,6 +71,7 @@ func (h *history) addOutgoing(
 		SSRC:               ssrc,
 		SequenceNumber:     h.counter,
 		RTPSequenceNumber:  rtpSequenceNumber,
+		IsTWCC:             isTWCC,
 		TWCCSequenceNumber: twccSequenceNumber,
 		Size:               size,
 		Departure:          departure,
@@ -178,6 +179,7 @@ func (h *history) delete(p *PacketReport) {
 		ssrc:           p.SSRC,
 		sequenceNumber: p.RTPSequenceNumber,
 	})
+	delete(h.packets, p.SequenceNumber)
 }
 
 // cleanBefore removes all entries in the interval [h.cleanBefore, counter).
